@@ -26,7 +26,7 @@ import (
 // exchange area), +24 T (table for scalar loads).
 
 type phase struct {
-	Kind string `json:"kind"` // loadwait | sload | delay | ldsx | globx | exit
+	Kind string `json:"kind"` // loadwait | sload | delay | wdelay | ldsx | globx | exit | manyload
 	// loadwait: N flat loads in flight, s_waitcnt vmcnt(K), use the first N-K,
 	// then (K>0) s_waitcnt vmcnt(0) and use the rest.
 	// sload: N scalar loads in flight, s_waitcnt lgkmcnt(0), use them.
@@ -46,6 +46,13 @@ type phase struct {
 	// exit: leaving wavefronts store their accumulator first (s_endpgm then has
 	// to wait for the store)
 	Store bool `json:"store,omitempty"`
+	// exit: leaving wavefronts first load A[gid], wait for it (s_waitcnt
+	// vmcnt(0)) and fold it, so that a slow vector memory makes them end late
+	Load bool `json:"load,omitempty"`
+	// wdelay: wavefront w of every group runs Iters[w] (>= 1) iterations of the
+	// 3-instruction scalar delay loop (a table, so that the order in which the
+	// wavefronts of a group reach the next program point can be chosen freely)
+	Iters []int `json:"iters,omitempty"`
 	// sload: the scalar loads (at most 3 in flight: up to 8, 4 and 4 dwords);
 	// Off is the byte offset inside the wavefront's 256-byte slice of T, so a
 	// load whose range crosses a multiple of 64 is split by the scalar unit
@@ -460,6 +467,29 @@ func buildKernel(k kernelSpec) (*builtKernel, error) {
 			a.add("s_sub_u32 cnt, cnt, 1 ; delay loop", g.MkSOP2(op(g.SOP2, "s_sub_u32"), sCnt, sCnt, g.Imm(1)))
 			a.add("s_cmp_lg_u32 cnt, 0", g.MkSOPC(op(g.SOPC, "s_cmp_lg_u32"), sCnt, g.Imm(0)))
 			a.add("s_cbranch_scc1 loop", g.Branch(g.OpSCbranchSCC1, l))
+		case "wdelay":
+			if len(ph.Iters) != k.W {
+				return nil, fmt.Errorf("phase %d: wdelay needs one iteration count per wavefront", pi)
+			}
+			for _, n := range ph.Iters {
+				if n < 1 || n > 1<<16 {
+					return nil, fmt.Errorf("phase %d: bad wdelay iteration count %d", pi, n)
+				}
+			}
+			// cnt = Iters[wave]: default Iters[0], one compare + select per wavefront that differs
+			a.add(fmt.Sprintf("s_mov_b32 cnt, %d", ph.Iters[0]), g.MkSOP1(op(g.SOP1, "s_mov_b32"), sCnt, imm(ph.Iters[0])))
+			for w := 1; w < k.W; w++ {
+				if ph.Iters[w] == ph.Iters[0] {
+					continue
+				}
+				a.add(fmt.Sprintf("s_cmp_eq_u32 wave, %d", w), g.MkSOPC(op(g.SOPC, "s_cmp_eq_u32"), sWave, imm(w)))
+				a.add(fmt.Sprintf("s_cselect_b32 cnt, %d, cnt", ph.Iters[w]), g.MkSOP2(op(g.SOP2, "s_cselect_b32"), sCnt, imm(ph.Iters[w]), sCnt))
+			}
+			l := a.label()
+			a.p.Label(l)
+			a.add("s_sub_u32 cnt, cnt, 1 ; per-wavefront delay loop", g.MkSOP2(op(g.SOP2, "s_sub_u32"), sCnt, sCnt, g.Imm(1)))
+			a.add("s_cmp_lg_u32 cnt, 0", g.MkSOPC(op(g.SOPC, "s_cmp_lg_u32"), sCnt, g.Imm(0)))
+			a.add("s_cbranch_scc1 loop", g.Branch(g.OpSCbranchSCC1, l))
 		case "ldsx":
 			if ph.N < 1 {
 				return nil, fmt.Errorf("phase %d: bad ldsx", pi)
@@ -527,6 +557,12 @@ func buildKernel(k kernelSpec) (*builtKernel, error) {
 			a.add(fmt.Sprintf("s_lshr_b32 t2, 0x%x, wave", ph.Mask), g.MkSOP2(op(g.SOP2, "s_lshr_b32"), sTmp2, g.Lit(uint32(ph.Mask)), sWave))
 			a.add("s_and_b32 t2, t2, 1", g.MkSOP2(op(g.SOP2, "s_and_b32"), sTmp2, sTmp2, g.Imm(1)))
 			a.add("s_cbranch_scc0 stay", g.Branch(g.OpSCbranchSCC0, stay))
+			if ph.Load {
+				a.addr(10, sA, vGid, "&A[gid]")
+				a.flatLoad("flat_load_dword v18, v[10:11] ; long-latency load before the early exit", g.V(18), g.VRange(10, 2))
+				a.waitcnt(0, 15)
+				a.fold(g.V(18), "load before the early exit")
+			}
 			if ph.Store {
 				a.storeOut()
 			}
@@ -669,7 +705,7 @@ func hostModel(k kernelSpec, d kernelData) hostResult {
 						}
 					}
 				})
-			case "delay":
+			case "delay", "wdelay":
 			case "ldsx":
 				for gen := 0; gen < ph.N; gen++ {
 					b := (ldsGen % 2) * wgs
@@ -697,6 +733,11 @@ func hostModel(k kernelSpec, d kernelData) hostResult {
 			case "exit":
 				for w := 0; w < k.W; w++ {
 					if live[w] && ph.Mask>>uint(w)&1 == 1 {
+						if ph.Load {
+							for l := 64 * w; l < 64*w+64; l++ {
+								acc[l] = acc[l]*k.Mul + d.A[base+l]
+							}
+						}
 						if ph.Store {
 							for l := 64 * w; l < 64*w+64; l++ {
 								res.B[base+l] = acc[l]
